@@ -493,6 +493,13 @@ class Gen:
         if self.chance(0.45):
             o = self.rect(scope, dev['h'], dev['w'])
             o.update(kind='matrix', name=A.string(dev['name']))
+            if self.profile == 'matrix' and self.mode != 'rgb' and self.chance(0.12):
+                # painting a rectangle with the all-zero colour is painting it: the default stays outside
+                zero = [{'op': 'setreg', 'reg': r, 'e': A.num('0')} for r in ('hue', 'saturation', 'brightness', 'kelvin')]
+                for r in ('hue', 'saturation', 'brightness', 'kelvin'):
+                    self.regs[r] = 'E'
+                    self.written.add(r)
+                return zero + [{'op': 'action', 'act': 'set', 'ops': [o]}]
             return {'op': 'action', 'act': 'set', 'ops': [o]}
         self.in_matrix = dev
         saved_budget = self.budget
